@@ -9,6 +9,7 @@ git -C /repo worktree add -q --detach "$WT" HEAD
 trap 'git -C /repo worktree remove --force "$WT" >/dev/null 2>&1; rm -rf "$WT"' EXIT
 git -C "$WT" apply "$P"
 cd "$(dirname "$0")/.."
+export KV_EVID=$(mktemp -d /var/tmp/kv_evid.XXXXXX)
 for id in "$@"; do
   echo "== $id"
   KV_REPO="$WT" tools/check "$id" quick || true
